@@ -11,6 +11,7 @@ import CbiVerif.Drv.C01
 import CbiVerif.Drv.CLex
 import CbiVerif.Drv.Compilers
 import CbiVerif.Drv.Eval
+import CbiVerif.Drv.CodeBase
 /-! Native JSON-lines driver: one request object per line, one reply per line.
 Each area registers its ops in `CbiVerif/Drv/<Area>.lean`. -/
 open Lean
@@ -27,7 +28,8 @@ def handlerTable : List (String × (Json → Json)) :=
   CbiVerif.Drv.C01.handlers ++
   CbiVerif.Drv.CLex.handlers ++
   CbiVerif.Drv.Compilers.handlers ++
-  CbiVerif.Drv.Eval.handlers
+  CbiVerif.Drv.Eval.handlers ++
+  CbiVerif.Drv.CodeBase.handlers
 
 def handle (j : Json) : Json :=
   match j.getObjValAs? String "op" with
